@@ -107,6 +107,8 @@ def add_effect(c, holder, eff, timing=None):
     if fa:
         kw["forall"] = [c.var(n, tn) for n, tn in fa]
     fn = {"assign": "add_effect", "inc": "add_increase_effect", "dec": "add_decrease_effect"}[kind]
+    if fn == "add_effect" and timing is not None and not hasattr(holder, "add_effect"):
+        fn = "add_timed_effect"  # Problem-level timed effects
     if timing is None:
         getattr(holder, fn)(c.e(fl), c.e(val), **kw)
     else:
